@@ -1143,7 +1143,9 @@ struct Walk {
   uint32_t sub = 0;
   double t_end = 1e18;
   double t0 = 0, budget = 0;   // start of the shard and its time budget: stage s must be over by t0 + budget * CUM[s], slack carries over
-  double stage_end = 1e18;
+  double stage_end = 1e18, later_need = 0;
+  // a stage that has used up its share goes on as long as the later stages still have 60% of theirs
+  bool out_of_time(double slack) const { double n = now_s(); return n > t_end + slack || (n > stage_end + slack && t_end - n < later_need); }
   int only_stage = -1;
   int sample_fd = -1;
   int stage = 0; uint64_t ord = 0, taken = 0; bool cut = false;
@@ -1161,6 +1163,7 @@ struct Walk {
       double cum = 0;
       for (int i = 0; i <= s; i++) cum += FRAC[i];
       stage_end = budget > 0 && only_stage < 0 ? std::min(t_end, t0 + budget * cum) : t_end;
+      later_need = budget > 0 && only_stage < 0 ? 0.6 * budget * (1.0 - cum) : 0;
     }
     SH->stage_state[s] = 1;
     sample_at = SH->stage_cases[s] + 97;
@@ -1173,7 +1176,7 @@ struct Walk {
     if (cut) return false;
     if (int(o % uint64_t(ns)) != sh) return false;
     if (resume && stage == resume_stage && resume_unit != ~0ull && o < resume_unit) return false;
-    if ((++taken & 15) == 0 && now_s() > stage_end) { cut = true; SH->deadline_hit = 1; return false; }
+    if ((++taken & 15) == 0 && out_of_time(0)) { cut = true; SH->deadline_hit = 1; return false; }
     SH->stage_units[stage]++;
     sub = 0;
     return true;
@@ -1184,7 +1187,7 @@ struct Walk {
     const uint32_t my = sub++;
     if (resume && stage == resume_stage && resume_unit != ~0ull && unit() == resume_unit && my <= resume_sub) return;  // already executed by the worker that died
     SH->cur.sub = my;
-    if ((++ran & 255) == 0 && now_s() > stage_end + 15) { cut = true; SH->deadline_hit = 1; return; }  // a unit that outlives the deadline by 20 s is cut short
+    if ((++ran & 255) == 0 && out_of_time(15)) { cut = true; SH->deadline_hit = 1; return; }  // a unit that outlives the deadline by 20 s is cut short
     run_case();
     if (sample_fd >= 0 && sh == 0 && SH->stage_cases[stage] == sample_at) {
       std::string l = case_json(SH->cur, -1, int(SH->ep), "", g_vg) + "\n";
